@@ -1,20 +1,20 @@
-\* generated by spec/getter/gen_cfgs.sh -- MC_defect_putpanic
+\* generated by spec/getter/gen_cfgs.sh -- MC_casesq_samples2
 SPECIFICATION Spec
 CONSTANTS
   ReqTypes <- TypesSamples
-  NItems = 1
+  NItems = 2
   MaxAnswers = 1
-  Chains <- ChainsAll
-  NPeers = 2
+  Chains <- ChainsDirect
+  NPeers = 3
   BlockStores <- StoresAll
   ClearOnFail = TRUE
   FreshDecode = FALSE
-  PutPanics = TRUE
+  PutPanics = FALSE
   AttemptTimeouts = FALSE
-  CanonDecode = FALSE
-  QuietCtxOnly = FALSE
+  CanonDecode = TRUE
+  QuietCtxOnly = TRUE
 INVARIANTS
   TypeOK
-  NoPanic
-VIEW View
+  PrintCases
+
 CHECK_DEADLOCK FALSE
